@@ -319,6 +319,9 @@ class ParameterScenario(Scenario):
 
                 # Disable parameter function during scenario
                 if has_function:
+                    existing = par.skip_function[pop_label]
+                    if existing is not None:
+                        scen_start = min(existing[0], scen_start)  # An earlier scenario already applied to this parset stays in force until this one starts
                     par.skip_function[pop_label] = (scen_start, np.inf)
 
         return new_parset
